@@ -32,6 +32,14 @@ def main():
 
 class World:
     def __init__(self, spec):
+        if spec.get("decimal_context_at_import"):
+            # the program set up its decimal context (a report with few digits, another rounding mode) BEFORE it imported
+            # the library and its unit modules; it may put the default back afterwards
+            import decimal
+            c = spec["decimal_context_at_import"]
+            decimal.getcontext().prec = c.get("prec", 28)
+            if c.get("rounding"):
+                decimal.getcontext().rounding = getattr(decimal, c["rounding"])
         import measured
         from measured import conversions
 
@@ -49,6 +57,9 @@ class World:
                 importlib.import_module(f"measured.{name}")
             self.b = None
         self.vars = {}
+        if spec.get("decimal_context_at_import", {}).get("restore_after_import"):
+            import decimal
+            decimal.setcontext(decimal.Context())
 
     # term evaluation (units by name; ["var", k] refers to an earlier result)
     def unit(self, t):
